@@ -58,7 +58,7 @@ impl Property for C09 {
     fn rule() -> String {
         "Generated: layouts/links with Unicode text in every string field (same generator as C11), 1-3 signers over all key types and \
          schemes, construction path in {Metablock::new, MetablockBuilder::from_metadata().sign().build(), from_raw_metadata}, wire form in \
-         {serde_json compact, pretty, Json::to_writer, JsonPretty::to_writer}. Oracle: parse(wire).verify(n, signers) = Ok; verify(1,[unrelated \
+         {serde_json compact, pretty, Json::to_writer, JsonPretty::to_writer}. (one case in eleven: the two signers are one RSA key pair under both of its schemes). Oracle: parse(wire).verify(n, signers) = Ok; verify(1,[unrelated \
          key]) = Err; for sampled single-bit flips of each signature value both PublicKey::verify and block verify = Err; the same key \
          material declared with another scheme (RSA pss-sha256<->pss-sha512, Ed25519 bytes declared as ECDSA) rejects the signature. \
          Non-trivial: content has an escape-relevant character, or a non-Ed25519 scheme, or >=2 signers; distinct by (doc, signer kinds, path, wire)."
@@ -74,7 +74,9 @@ impl Property for C09 {
         let nflips = tier.pick(3usize, 8usize);
         (
             doc_strategy(true),
-            prop_oneof![3 => distinct_keys(1, 3, true), 2 => distinct_keys(1, 2, false)],
+            prop_oneof![6 => distinct_keys(1, 3, true), 4 => distinct_keys(1, 2, false),
+                // one RSA key pair used under both of its signature schemes: two signers, two key ids
+                1 => (0..RSA_POOL.len(), any::<bool>()).prop_map(|(idx, first512)| vec![KeySpec::Rsa { idx, sha512: first512 }, KeySpec::Rsa { idx, sha512: !first512 }])],
             prop_oneof![Just(Path::New), Just(Path::Builder), Just(Path::BuilderRaw)],
             prop_oneof![Just(Wire::Compact), Just(Wire::Pretty), Just(Wire::JsonWriter), Just(Wire::JsonPrettyWriter)],
             proptest::collection::vec(any::<u16>(), 1..=nflips),
